@@ -200,6 +200,8 @@ class C20(Harness):
             us.append({'kind': 'ops', 'cfg': cfg, 'n': b['ops_len']})
         for lv in ('-2', '-1', '0', '1', '15', '49', '50', '51', '52', 'WARN', 'Blather', 'nope'):
             us.append({'kind': 'factory', 'level': lv})
+        # the same logger name configured by consecutive configurations (process-global logger object)
+        us.append({'kind': 'reconf', 'n': 3})
         return us
 
     def inputs(self, eng, unit):
@@ -217,6 +219,14 @@ class C20(Harness):
             p = eng.fresh_int('path')
             eng.assume(z3.And(p >= 0, p <= 2))
             out['path'] = SymInt(p)
+            return out
+        if k == 'reconf':
+            out = {}
+            for i in range(unit['n']):
+                out['p%d' % i] = SymBool(eng.fresh_boolvar('p%d' % i))
+                v = eng.fresh_int('l%d' % i)
+                eng.assume(z3.And(v >= 0, v <= 2))
+                out['l%d' % i] = SymInt(v)
             return out
         if k == 'ops':
             out = {}
@@ -253,6 +263,8 @@ class C20(Harness):
                 return self._ops(unit, inp)
             if k == 'factory':
                 return self._factory(unit)
+            if k == 'reconf':
+                return self._reconf(unit, inp)
         except Exception as e:
             return ('crash', type(e).__name__, str(e)[:80])
 
@@ -380,6 +392,32 @@ class C20(Harness):
                     root.removeHandler(h)
             root.setLevel(logging.WARNING)
 
+    def _reconf(self, unit, inp):
+        """n configurations for ONE logger name, each with its own propagate flag (z3 boolean) and
+        level (z3 integer choosing among three spellings); after each factory call the process-global
+        logger must show the propagate flag and level of the latest configuration (handlers of
+        earlier configurations stay attached: the statement speaks about one factory only)"""
+        import ZConfig
+        name = 'vf.c20.reconf'
+        self._reset_logging(name)
+        logging.getLogger(name).propagate = True
+        schema = ZConfig.loadSchemaFile(io.StringIO(LOG_SCHEMA))
+        out = []
+        try:
+            for i in range(unit['n']):
+                prop = bool(inp['p%d' % i])
+                li = inp['l%d' % i]
+                lvl = 'debug' if li == 0 else ('WARN' if li == 1 else '35')
+                text = '<logger>\nname %s\nlevel %s\n%s<logfile>\npath STDOUT\n</logfile>\n</logger>\n' % (
+                    name, lvl, '' if prop else 'propagate no\n')
+                cfg, _ = ZConfig.loadConfigFile(schema, io.StringIO(text))
+                lg = cfg.loggers[0]()
+                out.append((prop, lvl, lg.propagate, lg.level, len(lg.handlers)))
+            return ('ok', out)
+        finally:
+            self._reset_logging(name)
+            logging.getLogger(name).propagate = True
+
     def _ops(self, unit, inp):
         """op 0: call the factory; 1: reopenFiles(); 2: closeFiles(); 3: drop the logger's handlers
         (remove + forget, so they can be collected).  After every step the registry must hold exactly
@@ -462,6 +500,8 @@ class C20(Harness):
             return ('format-consistent',)
         if k == 'ops':
             return ('ops-consistent',)
+        if k == 'reconf':
+            return ('reconf-consistent',)
         if k == 'factory':
             lv = unit['level']
             try:
@@ -482,6 +522,11 @@ class C20(Harness):
             return z3.BoolVal(real == ('ok', 'formats', True) or list(real) == ['ok', 'formats', True])
         if k == 'ops':
             return z3.BoolVal(self._ops_ok(unit, real))
+        if k == 'reconf':
+            if real[0] != 'ok':
+                return z3.BoolVal(False)
+            want = {'debug': 10, 'WARN': 30, '35': 35}
+            return z3.BoolVal(all(st[2] is st[0] and st[3] == want[st[1]] for st in real[1]))
         return deep_eq(real, exp)
 
     def _ops_ok(self, unit, real):
